@@ -65,7 +65,8 @@ TViews == /\ Ev.ev = "views"
           /\ Verdict(IF Ev.wrong # <<>> THEN "C14_view_does_not_converge_to_membership" ELSE "ok")
           /\ UNCHANGED <<mon, pend, drift, nbeh>>
 TWitness == /\ Ev.ev = "witness"
-            /\ Verdict(IF Ev.completed = 0 THEN "C13_D1_lifecycle_operations_blocked_forever" ELSE "ok")
+            /\ Verdict(IF Ev.completed = 0 THEN "C13_D1_lifecycle_operations_blocked_forever"
+                       ELSE IF "bad_entries" \in DOMAIN Ev /\ Ev.bad_entries > 0 THEN "C13_D2_reader_saw_a_corrupted_chat_history" ELSE "ok")
             /\ UNCHANGED <<mon, pend, drift, nbeh>>
 TSkip == skip /\ Ev.ev # "New" /\ UNCHANGED <<mon, pend, drift, nbeh, nbad, skip>>
 
